@@ -96,7 +96,9 @@ fn check_value<T: Response + ?Sized>(st: &mut St, v: &T, val: &Val, label: &str,
             }
             exact!(1 2 3 4 5 6 7 8 9 10 11 12 13 14 15 16 17 18 19 20 21 22 23 24 32 48 64);
         }
-        if problem.is_none() {
+        // (the recording writer logs into a bounded arena: responses of more than 200 000 bytes -
+        // the largest blocks of the thorough tier - only meet the pass-through writer)
+        if problem.is_none() && b.len() <= 200_000 {
             let mut rw = RecW::unbounded();
             log::reset();
             mc::exec::set_pattern(Pattern::NONE);
